@@ -22,6 +22,7 @@ TYPEFN_ROUTES = [
     'fn ap(g) {\n    return g()\n}\nprint(ap("hé"->len))', 'tools := {"measure": "hello"->len}\nh := tools["measure"]\nprint(h())', 'print(("a"->len)->type())', 'print(xs->type->type())', 'tools := {"p": print}\ntools.p(1)',
     # built-in functions called with too few / too many arguments, also through spreads
     'print()', 'none := []\nprint(none..)', 'print(1, 2)', 'print(xs..)', 'p := print\np()', 'print("abc"->len(xs..))', 'print(xs->type(1, 2))', 'print(print())', 'print(o->nosuch())', 'none := []\nprint("ab"->len(none..))',
+    'fn wrap(v) {\n    return $"<${v}>"\n}\nzz := wrap("z")\nprint($"a${wrap("q")}b${wrap(zz)}")', 'fn wrap2(v) {\n    return $"[${v}]"\n}\no2 := {"w": wrap2}\nprint($"${o2.w("k")}${o2["w"]("j")}")',
     'tools := {"l": "x"->len}\nprint(tools.l(1))', 'print("abc"->len(1))', 'print(5->len())', 'tools := {"ty": null}\nprint(tools.ty->type())', 'q := {"len": "zz"->len}\nw := {"k": q.len}\nprint(w.k())',
 ]
 CYCLIC_PRINT = ['xs[0] = xs\nprint(xs)', 'o.k = o\nprint(o)', 'xs[0] = [xs]\nprint(xs)', 'o.k = [o]\nprint(o)']
